@@ -1,1 +1,327 @@
-(* C10 proofs: in progress *)
+(* C10 proofs: desugaring produces core forms, has the documented shapes, commutes with position erasure,
+   and is idempotent exactly on trees without a member node in callee position. *)
+From Coq Require Import List String Bool NArith ZArith.
+From Yae Require Import Base.Sexp Model.Lexer Model.Cst Model.Desugar Model.DesugarSpec Proofs.ExprInd.
+Import ListNotations.
+
+(* ---- option / mapM generalities ---- *)
+
+Lemma bind_Some {X Y} (o : option X) (f : X -> option Y) y :
+  bind o f = Some y -> exists x, o = Some x /\ f x = Some y.
+Proof. destruct o as [x|]; cbn; intros H; [exists x; auto | discriminate H]. Qed.
+
+Lemma option_map_Some {X Y} (f : X -> Y) (o : option X) y :
+  option_map f o = Some y -> exists x, o = Some x /\ y = f x.
+Proof. destruct o as [x|]; cbn; intros H; [injection H as <-; exists x; auto | discriminate H]. Qed.
+
+Lemma mapM_cons {X Y} (f : X -> option Y) x r :
+  mapM f (x :: r) = do y <- f x; do ys <- mapM f r; Some (y :: ys).
+Proof. reflexivity. Qed.
+
+Lemma mapM_cons_Some {X Y} (f : X -> option Y) x r l' :
+  mapM f (x :: r) = Some l' -> exists y ys, f x = Some y /\ mapM f r = Some ys /\ l' = y :: ys.
+Proof.
+  rewrite mapM_cons. intros H.
+  apply bind_Some in H as (y & Ey & H). apply bind_Some in H as (ys & Eys & H).
+  injection H as <-. exists y, ys. auto.
+Qed.
+
+Lemma mapM_length {X Y} (f : X -> option Y) l : forall l', mapM f l = Some l' -> List.length l' = List.length l.
+Proof.
+  induction l as [|x r IH]; intros l' H.
+  - cbn in H. injection H as <-. reflexivity.
+  - apply mapM_cons_Some in H as (y & ys & _ & Eys & ->). cbn. f_equal. apply IH, Eys.
+Qed.
+
+Lemma mapM_id {X} (l : list X) : mapM (fun x => Some x) l = Some l.
+Proof. induction l as [|x r IH]; [reflexivity|]. rewrite mapM_cons, IH. reflexivity. Qed.
+
+Lemma mapM_forallb {X Y} (f : X -> option Y) (q : Y -> bool) l :
+  Forall (fun x => forall y, f x = Some y -> q y = true) l ->
+  forall l', mapM f l = Some l' -> forallb q l' = true.
+Proof.
+  induction 1 as [|x r Hx Hr IH]; intros l' H.
+  - cbn in H. injection H as <-. reflexivity.
+  - apply mapM_cons_Some in H as (y & ys & Ey & Eys & ->). cbn [forallb].
+    rewrite (Hx _ Ey), (IH _ Eys). reflexivity.
+Qed.
+
+Lemma mapM_map {X Y} (f f' : X -> option Y) (g : X -> X) (g' : Y -> Y) l :
+  Forall (fun x => forall y, f x = Some y -> f' (g x) = Some (g' y)) l ->
+  forall l', mapM f l = Some l' -> mapM f' (map g l) = Some (map g' l').
+Proof.
+  induction 1 as [|x r Hx Hr IH]; intros l' H.
+  - cbn in H. injection H as <-. reflexivity.
+  - apply mapM_cons_Some in H as (y & ys & Ey & Eys & ->). cbn [map].
+    rewrite mapM_cons, (Hx _ Ey), (IH _ Eys). reflexivity.
+Qed.
+
+Lemma mapM_fix {X} (f : X -> option X) (q1 q2 : X -> bool) l :
+  Forall (fun x => q1 x = true -> q2 x = true -> f x = Some x) l ->
+  forallb q1 l = true -> forallb q2 l = true -> mapM f l = Some l.
+Proof.
+  induction 1 as [|x r Hx Hr IH]; intros H1 H2; [reflexivity|].
+  cbn [forallb] in H1, H2.
+  apply andb_true_iff in H1 as [H1x H1r]. apply andb_true_iff in H2 as [H2x H2r].
+  rewrite mapM_cons, (Hx H1x H2x), (IH H1r H2r). reflexivity.
+Qed.
+
+(* ---- unfolding equations of [desugar] ---- *)
+
+Definition desugar_kv (kv : expr * expr) : option (expr * expr) :=
+  do k <- desugar (fst kv); do v <- desugar (snd kv); Some (k, v).
+Definition desugar_fld (f : list N * expr) : option (list N * expr) :=
+  do v <- desugar (snd f); Some (fst f, v).
+
+Lemma desugar_list p es : desugar (EList p es) = option_map (EList p) (mapM desugar es).
+Proof. reflexivity. Qed.
+Lemma desugar_map p kvs : desugar (EMap p kvs) = option_map (EMap p) (mapM desugar_kv kvs).
+Proof. reflexivity. Qed.
+Lemma desugar_obj p fs : desugar (EObj p fs) = option_map (EObj p) (mapM desugar_fld fs).
+Proof. reflexivity. Qed.
+Lemma desugar_unary p n np x pre :
+  desugar (EUnary p n np x pre) = do x' <- desugar x; Some (ECall p (p_col np) (EIdent np n) [x']).
+Proof. reflexivity. Qed.
+Lemma desugar_binary p n np fx l r :
+  desugar (EBinary p n np fx l r) =
+  do l' <- desugar l; do r' <- desugar r; Some (ECall p (p_col np) (EIdent np n) [l'; r']).
+Proof. reflexivity. Qed.
+Lemma desugar_ternary p n np l m r :
+  desugar (ETernary p n np l m r) =
+  if list_eqb n [63%N] then
+    do l' <- desugar l; do m' <- desugar m; do r' <- desugar r;
+    Some (ECall p (p_col np) (EIdent np IF_NAME) [l'; m'; r'])
+  else None.
+Proof. reflexivity. Qed.
+Lemma desugar_sub p c v i :
+  desugar (ESub p c v i) = do v' <- desugar v; do i' <- desugar i; Some (ESub p c v' i').
+Proof. reflexivity. Qed.
+Lemma desugar_member p c o n np :
+  desugar (EMember p c o n np) = do o' <- desugar o; Some (EMember p c o' n np).
+Proof. reflexivity. Qed.
+Lemma desugar_group p x : desugar (EGroup p x) = desugar x.
+Proof. reflexivity. Qed.
+
+Definition is_member (e : expr) : bool := match e with EMember _ _ _ _ _ => true | _ => false end.
+
+Lemma is_member_inv e : is_member e = true -> exists pm cm o f fp, e = EMember pm cm o f fp.
+Proof. destruct e as [| | | | | | | | | |pm cm o f fp| | | |]; intros H; try discriminate H. exists pm, cm, o, f, fp. reflexivity. Qed.
+
+Lemma is_member_erase e : is_member (erase e) = is_member e.
+Proof. destruct e; reflexivity. Qed.
+
+Lemma desugar_call_member p col pm cm o f fp args :
+  desugar (ECall p col (EMember pm cm o f fp) args) =
+  do o' <- desugar o; do args' <- mapM desugar args; Some (ECall p col (EIdent fp f) (o' :: args')).
+Proof. reflexivity. Qed.
+
+Lemma desugar_call_other p col c args : is_member c = false ->
+  desugar (ECall p col c args) = do args' <- mapM desugar args; do c' <- desugar c; Some (ECall p col c' args').
+Proof. destruct c; intros H; try reflexivity; discriminate H. Qed.
+
+Lemma nmc_call_other p col c args : is_member c = false ->
+  no_member_callee (ECall p col c args) = no_member_callee c && forallb no_member_callee args.
+Proof. destruct c; intros H; try reflexivity; discriminate H. Qed.
+
+Lemma nmc_call_member p col c args : is_member c = true -> no_member_callee (ECall p col c args) = false.
+Proof. destruct c; intros H; try discriminate H; reflexivity. Qed.
+
+(* ---- shapes ---- *)
+
+Lemma shape_binary : forall p n np fx l r l' r',
+  desugar l = Some l' -> desugar r = Some r' ->
+  desugar (EBinary p n np fx l r) = Some (ECall p (p_col np) (EIdent np n) [l'; r']).
+Proof. intros p n np fx l r l' r' Hl Hr. rewrite desugar_binary, Hl, Hr. reflexivity. Qed.
+
+Lemma shape_unary : forall p n np x pre x',
+  desugar x = Some x' -> desugar (EUnary p n np x pre) = Some (ECall p (p_col np) (EIdent np n) [x']).
+Proof. intros p n np x pre x' Hx. rewrite desugar_unary, Hx. reflexivity. Qed.
+
+Lemma shape_ternary : forall p np c a b c' a' b',
+  desugar c = Some c' -> desugar a = Some a' -> desugar b = Some b' ->
+  desugar (ETernary p [63%N] np c a b) = Some (ECall p (p_col np) (EIdent np IF_NAME) [c'; a'; b']).
+Proof. intros p np c a b c' a' b' Hc Ha Hb. rewrite desugar_ternary, Hc, Ha, Hb. reflexivity. Qed.
+
+Lemma shape_method : forall p col pm cm o f fp args o' args',
+  desugar o = Some o' -> mapM desugar args = Some args' ->
+  desugar (ECall p col (EMember pm cm o f fp) args) = Some (ECall p col (EIdent fp f) (o' :: args')).
+Proof. intros p col pm cm o f fp args o' args' Ho Ha. rewrite desugar_call_member, Ho, Ha. reflexivity. Qed.
+
+Lemma shape_group : forall p e, desugar (EGroup p e) = desugar e.
+Proof. intros p e. reflexivity. Qed.
+
+(* ---- only core forms remain ---- *)
+
+Lemma desugar_core : forall e d, desugar e = Some d -> core_only d = true.
+Proof.
+  induction e as [p t|p t|p t|p b|p es IH|p kvs IH|p fs IH|p n|p c f args IHf IHargs|p c v i IHv IHi
+                 |p c o n np IHo|p n np x pre IHx|p n np fx l r IHl IHr|p n np l m r IHl IHm IHr|p x IHx]
+    using expr_ind'; intros d H.
+  - cbn in H. injection H as <-. reflexivity.
+  - cbn in H. injection H as <-. reflexivity.
+  - cbn in H. injection H as <-. reflexivity.
+  - cbn in H. injection H as <-. reflexivity.
+  - rewrite desugar_list in H. apply option_map_Some in H as (es' & Ees & ->).
+    cbn [core_only]. exact (mapM_forallb _ _ _ IH _ Ees).
+  - rewrite desugar_map in H. apply option_map_Some in H as (kvs' & Ekvs & ->).
+    cbn [core_only]. refine (mapM_forallb _ _ _ _ _ Ekvs).
+    refine (Forall_impl _ _ IH). intros [k v] [IHk IHv] y Hy. cbn [fst snd] in IHk, IHv.
+    unfold desugar_kv in Hy. cbn [fst snd] in Hy.
+    apply bind_Some in Hy as (k' & Ek & Hy). apply bind_Some in Hy as (v' & Ev & Hy).
+    injection Hy as <-. cbn [fst snd]. rewrite (IHk _ Ek), (IHv _ Ev). reflexivity.
+  - rewrite desugar_obj in H. apply option_map_Some in H as (fs' & Efs & ->).
+    cbn [core_only]. refine (mapM_forallb _ _ _ _ _ Efs).
+    refine (Forall_impl _ _ IH). intros [k v] IHv y Hy. cbn [fst snd] in IHv.
+    unfold desugar_fld in Hy. cbn [fst snd] in Hy.
+    apply bind_Some in Hy as (v' & Ev & Hy).
+    injection Hy as <-. cbn [fst snd]. exact (IHv _ Ev).
+  - cbn in H. injection H as <-. reflexivity.
+  - destruct (is_member f) eqn:Em.
+    + apply is_member_inv in Em as (pm & cm & o & fn & fp & ->).
+      rewrite desugar_call_member in H.
+      apply bind_Some in H as (o' & Eo & H). apply bind_Some in H as (args' & Ea & H).
+      injection H as <-.
+      specialize (IHf (EMember pm cm o' fn fp)). rewrite desugar_member, Eo in IHf.
+      specialize (IHf eq_refl). cbn [core_only] in IHf.
+      cbn [core_only forallb]. rewrite IHf, (mapM_forallb _ _ _ IHargs _ Ea). reflexivity.
+    + rewrite (desugar_call_other _ _ _ _ Em) in H.
+      apply bind_Some in H as (args' & Ea & H). apply bind_Some in H as (c' & Ec & H).
+      injection H as <-.
+      cbn [core_only]. rewrite (IHf _ Ec), (mapM_forallb _ _ _ IHargs _ Ea). reflexivity.
+  - rewrite desugar_sub in H.
+    apply bind_Some in H as (v' & Ev & H). apply bind_Some in H as (i' & Ei & H).
+    injection H as <-. cbn [core_only]. rewrite (IHv _ Ev), (IHi _ Ei). reflexivity.
+  - rewrite desugar_member in H. apply bind_Some in H as (o' & Eo & H).
+    injection H as <-. cbn [core_only]. exact (IHo _ Eo).
+  - rewrite desugar_unary in H. apply bind_Some in H as (x' & Ex & H).
+    injection H as <-. cbn [core_only forallb]. rewrite (IHx _ Ex). reflexivity.
+  - rewrite desugar_binary in H.
+    apply bind_Some in H as (l' & El & H). apply bind_Some in H as (r' & Er & H).
+    injection H as <-. cbn [core_only forallb]. rewrite (IHl _ El), (IHr _ Er). reflexivity.
+  - rewrite desugar_ternary in H. destruct (list_eqb n [63%N]); [|discriminate H].
+    apply bind_Some in H as (l' & El & H). apply bind_Some in H as (m' & Em & H).
+    apply bind_Some in H as (r' & Er & H).
+    injection H as <-. cbn [core_only forallb]. rewrite (IHl _ El), (IHm _ Em), (IHr _ Er). reflexivity.
+  - rewrite desugar_group in H. exact (IHx _ H).
+Qed.
+
+(* ---- erasing positions commutes with desugaring ---- *)
+
+Lemma erase_commutes : forall e d, desugar e = Some d -> desugar (erase e) = Some (erase d).
+Proof.
+  induction e as [p t|p t|p t|p b|p es IH|p kvs IH|p fs IH|p n|p c f args IHf IHargs|p c v i IHv IHi
+                 |p c o n np IHo|p n np x pre IHx|p n np fx l r IHl IHr|p n np l m r IHl IHm IHr|p x IHx]
+    using expr_ind'; intros d H.
+  - cbn in H. injection H as <-. reflexivity.
+  - cbn in H. injection H as <-. reflexivity.
+  - cbn in H. injection H as <-. reflexivity.
+  - cbn in H. injection H as <-. reflexivity.
+  - rewrite desugar_list in H. apply option_map_Some in H as (es' & Ees & ->).
+    cbn [erase]. rewrite desugar_list, (mapM_map _ _ _ _ _ IH _ Ees). reflexivity.
+  - rewrite desugar_map in H. apply option_map_Some in H as (kvs' & Ekvs & ->).
+    cbn [erase]. rewrite desugar_map.
+    assert (HF : Forall (fun x => forall y, desugar_kv x = Some y ->
+                    desugar_kv (erase (fst x), erase (snd x)) = Some (erase (fst y), erase (snd y))) kvs).
+    { refine (Forall_impl _ _ IH). intros [k v] [IHk IHv] y Hy. cbn [fst snd] in IHk, IHv.
+      unfold desugar_kv in Hy |- *. cbn [fst snd] in Hy |- *.
+      apply bind_Some in Hy as (k' & Ek & Hy). apply bind_Some in Hy as (v' & Ev & Hy).
+      injection Hy as <-. cbn [fst snd]. rewrite (IHk _ Ek), (IHv _ Ev). reflexivity. }
+    rewrite (mapM_map desugar_kv desugar_kv (fun kv => (erase (fst kv), erase (snd kv)))
+                      (fun kv => (erase (fst kv), erase (snd kv))) kvs HF kvs' Ekvs). reflexivity.
+  - rewrite desugar_obj in H. apply option_map_Some in H as (fs' & Efs & ->).
+    cbn [erase]. rewrite desugar_obj.
+    assert (HF : Forall (fun x => forall y, desugar_fld x = Some y ->
+                    desugar_fld (fst x, erase (snd x)) = Some (fst y, erase (snd y))) fs).
+    { refine (Forall_impl _ _ IH). intros [k v] IHv y Hy. cbn [fst snd] in IHv.
+      unfold desugar_fld in Hy |- *. cbn [fst snd] in Hy |- *.
+      apply bind_Some in Hy as (v' & Ev & Hy).
+      injection Hy as <-. cbn [fst snd]. rewrite (IHv _ Ev). reflexivity. }
+    rewrite (mapM_map desugar_fld desugar_fld (fun f => (fst f, erase (snd f)))
+                      (fun f => (fst f, erase (snd f))) fs HF fs' Efs). reflexivity.
+  - cbn in H. injection H as <-. reflexivity.
+  - destruct (is_member f) eqn:Em.
+    + apply is_member_inv in Em as (pm & cm & o & fn & fp & ->).
+      rewrite desugar_call_member in H.
+      apply bind_Some in H as (o' & Eo & H). apply bind_Some in H as (args' & Ea & H).
+      injection H as <-.
+      specialize (IHf (EMember pm cm o' fn fp)). rewrite desugar_member, Eo in IHf.
+      specialize (IHf eq_refl). cbn [erase] in IHf. rewrite desugar_member in IHf.
+      apply bind_Some in IHf as (o2 & Eo2 & IHf). injection IHf as ->.
+      cbn [erase map]. rewrite desugar_call_member, Eo2, (mapM_map _ _ _ _ _ IHargs _ Ea). reflexivity.
+    + rewrite (desugar_call_other _ _ _ _ Em) in H.
+      apply bind_Some in H as (args' & Ea & H). apply bind_Some in H as (c' & Ec & H).
+      injection H as <-.
+      cbn [erase]. rewrite desugar_call_other by (rewrite is_member_erase; exact Em).
+      rewrite (mapM_map _ _ _ _ _ IHargs _ Ea), (IHf _ Ec). reflexivity.
+  - rewrite desugar_sub in H.
+    apply bind_Some in H as (v' & Ev & H). apply bind_Some in H as (i' & Ei & H).
+    injection H as <-. cbn [erase]. rewrite desugar_sub, (IHv _ Ev), (IHi _ Ei). reflexivity.
+  - rewrite desugar_member in H. apply bind_Some in H as (o' & Eo & H).
+    injection H as <-. cbn [erase]. rewrite desugar_member, (IHo _ Eo). reflexivity.
+  - rewrite desugar_unary in H. apply bind_Some in H as (x' & Ex & H).
+    injection H as <-. cbn [erase map]. rewrite desugar_unary, (IHx _ Ex). reflexivity.
+  - rewrite desugar_binary in H.
+    apply bind_Some in H as (l' & El & H). apply bind_Some in H as (r' & Er & H).
+    injection H as <-. cbn [erase map]. rewrite desugar_binary, (IHl _ El), (IHr _ Er). reflexivity.
+  - rewrite desugar_ternary in H. destruct (list_eqb n [63%N]) eqn:En; [|discriminate H].
+    apply bind_Some in H as (l' & El & H). apply bind_Some in H as (m' & Em & H).
+    apply bind_Some in H as (r' & Er & H).
+    injection H as <-. cbn [erase map].
+    rewrite desugar_ternary, En, (IHl _ El), (IHm _ Em), (IHr _ Er). reflexivity.
+  - rewrite desugar_group in H. cbn [erase]. rewrite desugar_group. exact (IHx _ H).
+Qed.
+
+(* ---- idempotence ---- *)
+
+Lemma idempotent_partial : forall d, core_only d = true -> no_member_callee d = true -> desugar d = Some d.
+Proof.
+  induction d as [p t|p t|p t|p b|p es IH|p kvs IH|p fs IH|p n|p c f args IHf IHargs|p c v i IHv IHi
+                 |p c o n np IHo|p n np x pre IHx|p n np fx l r IHl IHr|p n np l m r IHl IHm IHr|p x IHx]
+    using expr_ind'; intros Hc Hn; try reflexivity; try discriminate Hc.
+  - cbn [core_only] in Hc. cbn [no_member_callee] in Hn.
+    rewrite desugar_list, (mapM_fix _ _ _ _ IH Hc Hn). reflexivity.
+  - cbn [core_only] in Hc. cbn [no_member_callee] in Hn.
+    rewrite desugar_map.
+    rewrite (mapM_fix desugar_kv (fun kv => core_only (fst kv) && core_only (snd kv))
+                      (fun kv => no_member_callee (fst kv) && no_member_callee (snd kv)) kvs);
+      [reflexivity| |exact Hc|exact Hn].
+    refine (Forall_impl _ _ IH). intros [k v] [IHk IHv] H1 H2. cbn [fst snd] in *.
+    apply andb_true_iff in H1 as [H1k H1v]. apply andb_true_iff in H2 as [H2k H2v].
+    unfold desugar_kv. cbn [fst snd]. rewrite (IHk H1k H2k), (IHv H1v H2v). reflexivity.
+  - cbn [core_only] in Hc. cbn [no_member_callee] in Hn.
+    rewrite desugar_obj.
+    rewrite (mapM_fix desugar_fld (fun f => core_only (snd f)) (fun f => no_member_callee (snd f)) fs);
+      [reflexivity| |exact Hc|exact Hn].
+    refine (Forall_impl _ _ IH). intros [k v] IHv H1 H2. cbn [fst snd] in *.
+    unfold desugar_fld. cbn [fst snd]. rewrite (IHv H1 H2). reflexivity.
+  - destruct (is_member f) eqn:Em.
+    + rewrite (nmc_call_member _ _ _ _ Em) in Hn. discriminate Hn.
+    + rewrite (nmc_call_other _ _ _ _ Em) in Hn. cbn [core_only] in Hc.
+      apply andb_true_iff in Hc as [Hcf Hca]. apply andb_true_iff in Hn as [Hnf Hna].
+      rewrite (desugar_call_other _ _ _ _ Em), (mapM_fix _ _ _ _ IHargs Hca Hna), (IHf Hcf Hnf). reflexivity.
+  - cbn [core_only] in Hc. cbn [no_member_callee] in Hn.
+    apply andb_true_iff in Hc as [Hcv Hci]. apply andb_true_iff in Hn as [Hnv Hni].
+    rewrite desugar_sub, (IHv Hcv Hnv), (IHi Hci Hni). reflexivity.
+  - cbn [core_only] in Hc. cbn [no_member_callee] in Hn.
+    rewrite desugar_member, (IHo Hc Hn). reflexivity.
+Qed.
+
+Lemma idempotent_refuted : exists e d d2,
+  desugar e = Some d /\ desugar d = Some d2 /\ d2 <> d.
+Proof.
+  pose (p := p0).
+  exists (ECall p 0 (EGroup p (EMember p 0 (EIdent p [111%N]) [102%N] p)) [ENum p [49%N]]).
+  exists (ECall p 0 (EMember p 0 (EIdent p [111%N]) [102%N] p) [ENum p [49%N]]).
+  exists (ECall p 0 (EIdent p [102%N]) [EIdent p [111%N]; ENum p [49%N]]).
+  split; [reflexivity|]. split; [reflexivity|]. intros H. discriminate H.
+Qed.
+
+Print Assumptions desugar_core.
+Print Assumptions shape_binary.
+Print Assumptions shape_unary.
+Print Assumptions shape_ternary.
+Print Assumptions shape_method.
+Print Assumptions shape_group.
+Print Assumptions erase_commutes.
+Print Assumptions idempotent_partial.
+Print Assumptions idempotent_refuted.
